@@ -86,6 +86,12 @@ var guardSpecs = []guardSpec{
 	{"setMaxGuard", "pkg/controller.v1beta1/trial/trial_controller_util.go", "getMetrics", "stmt:metric.Max = strValue", gmAtoms, gmParams, true},
 	{"setLatestGuard", "pkg/controller.v1beta1/trial/trial_controller_util.go", "getMetrics", "stmt:metric.Latest = strValue", gmAtoms, gmParams, true},
 	{"tsErrorGuard", "pkg/controller.v1beta1/trial/trial_controller_util.go", "getMetrics", `fmt.Errorf("failed to parse timestamps`, gmAtoms, gmParams, true},
+	{"textUseTokenGuard", "pkg/metricscollector/v1beta1/file-metricscollector/file-metricscollector.go", "parseLogsInTextFormat", "stmt:timestamp = ls[0]", lpAtoms, lpParams, true},
+	{"textAppendGuard", "pkg/metricscollector/v1beta1/file-metricscollector/file-metricscollector.go", "parseLogsInTextFormat", "append(mlogs, &v1beta1.MetricLog{", lpAtoms, lpParams, true},
+	{"obsUnavailableGuard", "pkg/metricscollector/v1beta1/file-metricscollector/file-metricscollector.go", "newObservationLog", "stmt:return &v1beta1.ObservationLog{ MetricLogs: []*v1beta1.MetricLog{", lpAtoms, lpParams, false},
+	{"jsonErrorGuard", "pkg/metricscollector/v1beta1/file-metricscollector/file-metricscollector.go", "parseLogsInJsonFormat", `fmt.Errorf("%w: %s", errParseJson`, lpAtoms, lpParams, true},
+	{"jsonUseTsGuard", "pkg/metricscollector/v1beta1/file-metricscollector/file-metricscollector.go", "parseLogsInJsonFormat", "stmt:timestamp = parsedTimestamp", lpAtoms, lpParams, true},
+	{"jsonAppendGuard", "pkg/metricscollector/v1beta1/file-metricscollector/file-metricscollector.go", "parseLogsInJsonFormat", "append(mlogs, &v1beta1.MetricLog{", lpAtoms, lpParams, true},
 	{"addFinalizerGuard", "pkg/controller.v1beta1/trial/trial_controller_util.go", "needUpdateFinalizers", "append(pendingFinalizers, cleanMetricsFinalizer)", finAtoms, finParams, false},
 	{"removeFinalizerGuard", "pkg/controller.v1beta1/trial/trial_controller_util.go", "needUpdateFinalizers", "stmt:finalizers := []string{}", finAtoms, finParams, false},
 	{"dbCleanupGuard", "pkg/controller.v1beta1/trial/trial_controller_util.go", "updateFinalizers", "r.DeleteTrialObservationLog(instance)", finAtoms, finParams, false},
@@ -203,6 +209,13 @@ var gmAtoms = map[string]string{
 	"timestamp.After(currentTime)": "after",
 }
 var gmParams = []string{"tracked", "floatOk", "tsBad", "minUnset", "below", "above", "tsNil", "after"}
+
+var lpAtoms = map[string]string{
+	"isMetricLine": "hasKeyword", "len(ls) != 2": "noSpace", "err != nil": "parseFailed", "len(kevList) < 3": "shortMatch",
+	"name != m": "otherName", "isObjectiveMetricReported": "objectiveReported", "len(logline) == 0": "emptyLine",
+	"exist": "exist#", `parsedTimestamp == ""`: "tsUnusable",
+}
+var lpParams = []string{"hasKeyword", "noSpace", "parseFailed", "shortMatch", "otherName", "objectiveReported", "emptyLine", "exist1", "exist2", "tsUnusable"}
 
 var finAtoms = map[string]string{
 	"trial.ObjectMeta.DeletionTimestamp.IsZero()": "(!deleting)", "instance.ObjectMeta.DeletionTimestamp.IsZero()": "(!deleting)",
